@@ -122,9 +122,7 @@ def _g_wd(rng, tier):
 
 
 _set(IU + "w_tilde_data_imaging_from", _g_wd)
-_set(IU + "w_tilde_curvature_preload_imaging_from", lambda rng, tier: (
-    {"noise_map_native": d["noise_map_native"], "kernel_native": d["kernel_native"], "native_index_for_slim_index": d["native_index_for_slim_index"]}
-    for d in list(_g_wd(rng, tier))[:1]))
+# (w_tilde_curvature_preload_imaging_from is quadratic in the pixel count: one large case does not finish inside the escalation cap)
 
 
 def _g_bin(rng, tier):
